@@ -53,7 +53,17 @@ def loop_shape(fn, ctx, L):
     if len(fs) != 1:
         return out
     f = fs[0]
-    if f[0] in ("<", "<=") and f[1][:2] == var[:2]:
+
+    def thin(k):
+        # the loop variable itself, or a conversion / trivial getter applied to it (class-typed counters like BlockNumber)
+        if k[:2] == var[:2]:
+            return True
+        if k[0] == "field" and len(k) == 3 and k[2][:2] == var[:2]:
+            return True
+        if k[0] == "mcall" and len(k) == 3 and "operator" in k[1] and k[2][:2] == var[:2]:
+            return True
+        return False
+    if f[0] in ("<", "<=") and thin(f[1]):
         out.update(kind="index", rel=f[0], bound=f[2])
         return out
     if f[0] == "!=":
